@@ -94,6 +94,15 @@ Theorem c18_trait : forall v attr h t items,
 Proof. exact c18_trait_explicit. Qed.
 Print Assumptions c18_trait.
 
+(** entraited traits with a delegation-target trait ([delegate_by = Trait] / [= ref] with an impl-trait name): the methods of
+    that generated trait carry exactly the attributes of the analysed methods - a [cfg] on a method of the user's trait gates the
+    same method of the trait the implementations are written against (conjunct [target_attrs_mirrored] of [view_C18]) *)
+Theorem c18_delegation_target_attrs : forall a v tg fns subs deleg ds,
+  delegation_trait_defs a v tg fns subs = Ok deleg -> deleg = map ITrait ds ->
+  match ds with d :: _ => map fst (trait_sigs d) = map tf_attrs fns | [] => True end.
+Proof. exact delegation_trait_defs_attrs. Qed.
+Print Assumptions c18_delegation_target_attrs.
+
 (** The predicate the checker evaluates on the implementation's output holds of every model expansion. *)
 Theorem c18_view_sound : forall v attr i items,
   expand_items v attr i = Ok items -> good (view_C18 (mkCtx v attr i) items).
